@@ -155,6 +155,45 @@ def gen(tier, seed, info):
         yield rbgen.case_line(L, C, ops + tail)
     info["random_cases"] = nrand
     info["op_kinds"] = kinds
+    # (5b) pens that differ only in the RGB8 secondary of one palette index, on cells consecutive in flush order and
+    # against the terminal's prior pen (the terminal's "already set?" test must compare the RGB8 value)
+    nrgb = 0
+    rgbs = ["#010203", "#010204", "#ff0000", "#00ff00"]
+    for attr in ("f", "b"):
+        for idx in (5, 200, 0):
+            for a, b in itertools.permutations(rgbs[:3], 2):
+                pa, pb = "%s%d%s" % (attr, idx, a), "%s%d%s" % (attr, idx, b)
+                for prog, prior in (
+                        (["pen " + pa, "txa 0 0 41", "pen " + pb, "txa 0 1 42"], "-"),
+                        (["pen " + pa, "era 0 0 2", "pen " + pb, "era 0 2 2", "pen " + pa, "cha 0 4 43"], "-"),
+                        (["pen " + pb, "txa 0 0 41.42"], pa),
+                        (["pen " + pa, "txa 0 0 41", "pen %s%d" % (attr, idx), "txa 0 1 42", "pen " + pb, "txa 0 2 43"], pb),
+                        (["pen " + pa, "hl 0 0 2 1 3", "pen " + pb, "hl 1 0 2 1 3"], "-")):
+                    nrgb += 1
+                    yield rbgen.case_line(2, 6, prog + ["%s 2 6 0 0 %s" % (rnd.choice(["fl", "flm"]), prior), "D"])
+    info["rgb_neighbour_cases"] = nrgb
+    # (5c) flushing over a terminal that already shows double-width characters (flp): the same / another wide
+    # character at exactly the same two columns, one column off, narrow text over a wide pair, in a different pen
+    nprior = 0
+    for pp, p in (("f3", "b4"), ("b2B1", "f1#102030"), ("-", "u2r1"), ("f7#010101", "f7#020202")):
+        for prior_text, pcol in (([0xff21], 2), ([0xff21, 0xff22], 1), ([0x41, 0xff01, 0x42], 0), ([0x1f3e0], 3)):
+            for prog in (["txa 0 2 ff21"], ["txa 0 2 ff22"], ["txa 0 1 ff21"], ["txa 0 3 ff21"], ["txa 0 2 41.42"], ["cha 0 3 78"],
+                         ["era 0 2 2"], ["txa 0 1 ff22.ff21"], ["txa 0 0 41.ff21.42", "cha 0 2 79"], ["hl 0 2 3 1 3"],
+                         ["txa 0 3 1f3e0"], ["txa 0 2 61.301.ff21"]):
+                nprior += 1
+                yield rbgen.case_line(1, 6, ["pen " + p] + prog +
+                                      ["flp 1 6 0 %d - 0 %d %s %s" % (rnd.randint(0, 5), pcol, pp, rbgen.text_tok(prior_text)), "D"])
+    for _ in range(400 if tier == "quick" else 20000):
+        L, C = rnd.randint(1, 2), rnd.randint(3, 8)
+        ops, _k = rbgen.gen_program(rnd, L, C, rnd.randint(2, 10), dump_prob=0.0, style="text-heavy")
+        pt = rbgen.rand_text(rnd, C)
+        w = sum(max(0, rbgen.cpw(c)) for c in pt)
+        if any(rbgen.cpw(c) < 0 for c in pt) or rbgen.cpw(pt[0]) == 0:
+            continue
+        nprior += 1
+        yield rbgen.case_line(L, C, ops + ["flp %d %d %d %d %s %d %d %s %s" % (L, C, rnd.randint(0, L - 1), rnd.randint(0, C - 1), rbgen.rand_pen(rnd),
+                                                                          rnd.randint(0, L - 1), rnd.randint(0, max(0, C - w)), rbgen.rand_pen(rnd), rbgen.text_tok(pt)), "D"])
+    info["prior_content_cases"] = nprior
     # (6) the mock terminal's print on its own (tp): every cursor column incl. the last one and the position
     # behind it, texts of every width class, NUL / control as first code point (the terminal must return)
     ntp = 0
@@ -174,7 +213,7 @@ def gen(tier, seed, info):
     info["terminal_print_cases"] = ntp
 
 
-ARITY = dict(rbgen.ARITY, fl=5, flm=5, flx=2, lct=0, tp=5)
+ARITY = dict(rbgen.ARITY, fl=5, flm=5, flx=2, lct=0, tp=5, flp=9)
 
 
 def classify(case, obs):
@@ -206,8 +245,15 @@ def terminal_fits(case):
         ok = all(rbgen.cpw(c) >= 0 for c in cps) or (cps and rbgen.cpw(cps[0]) < 0)
         return ok and int(t[i + 1]) >= 1 and int(t[i + 2]) >= 1 and 0 <= int(t[i + 3]) < int(t[i + 1]) and 0 <= int(t[i + 4]) < int(t[i + 2])
     for i, x in enumerate(t):
-        if x in ("fl", "flm", "flx") and (int(t[i + 1]) < L or int(t[i + 2]) < C):
+        if x in ("fl", "flm", "flx", "flp") and (int(t[i + 1]) < L or int(t[i + 2]) < C):
             return False
+        if x == "flp":
+            cps = [int(h, 16) for h in t[i + 9].split(".")] if t[i + 9] != "-" else []
+            w = sum(max(0, rbgen.cpw(c)) for c in cps)
+            if (not cps) or any(rbgen.cpw(c) < 0 for c in cps) or rbgen.cpw(cps[0]) == 0:
+                return False
+            if not (0 <= int(t[i + 6]) < int(t[i + 1]) and 0 <= int(t[i + 7]) and int(t[i + 7]) + w <= int(t[i + 2])):
+                return False
     return L >= 1 and C >= 1
 
 
